@@ -288,6 +288,28 @@ def check_callback_list(ctx, r, b, site, fcont):
                 site_where(site), sorted(fmt_leaf(l) for l in lv)), site_where(site))
     # uses of V
     retains = []
+    good = []
+    # a crate-local helper that is handed `&mut list` and filters it against the live intents
+    for s2 in b.calls():
+        tgt = prog.local_target(s2)
+        if tgt is None or not b.dominates(s2.bb, site.bb):
+            continue
+        takes = False
+        for a in s2.term["args"]:
+            pl = place_of(a)
+            if pl is None or pl["p"]:
+                continue
+            t0 = prog.types[b.locals[pl["l"]]]
+            if t0.get("k") == "ref" and t0.get("mut") and ctx.world.borrowed_local(b, a) == V:
+                takes = True
+        if not takes:
+            continue
+        sub = prog.reachable_bodies([tgt])
+        has_retain = any((x.path or "") == "std::vec::Vec::retain" for q in sub for x in prog.bodies[q].calls())
+        adds = any((x.path or "").split("::")[-1] in ("push", "extend", "extend_from_slice", "insert", "append")
+                   and (x.path or "").startswith("std::vec::Vec") for q in sub for x in prog.bodies[q].calls())
+        if has_retain and not adds and (intents_reads_under(ctx, tgt) & set(fcont)):
+            good.append(s2)
     others = []
     for s2 in b.calls():
         if not s2.term["args"]:
@@ -297,14 +319,13 @@ def check_callback_list(ctx, r, b, site, fcont):
         m = (s2.path or "").split("::")[-1]
         if s2.path == "std::vec::Vec::retain":
             retains.append(s2)
-        elif m in ("is_empty", "deref", "len", "as_slice", "iter", "as_ref", "clone", "drop", "call"):
+        elif m in ("is_empty", "deref", "len", "as_slice", "iter", "as_ref", "clone", "drop", "call") or s2 in good:
             pass
         else:
             pl0 = place_of(s2.term["args"][0])
             t0 = prog.types[b.locals[pl0["l"]]] if pl0 and not pl0["p"] else {}
             if t0.get("k") == "ref" and t0.get("mut"):
                 others.append(s2)
-    good = []
     for s2 in retains:
         cls = [t for t, how in prog.call_targets(s2) if how == "extern-cb"]
         reads = False
